@@ -90,7 +90,7 @@ vector<double> NumCalcApplicationTools::getVector(const std::string& desc)
       double step = TextTools::toDouble(keyvals["step"]);
       if (!(step > 0))
         throw Exception("Unvalid sequence specification, 'step' must be positive: " + desc);
-      if (!((end - start) / step < 10000000.))
+      if (!((end + NumConstants::TINY() - start) / step < 10000000.))
         throw Exception("Unvalid sequence specification, too many values: " + desc);
       for (double x = start; x <= end + NumConstants::TINY(); x += step)
       {
